@@ -12,6 +12,15 @@ lattice, every filter and the widths {W0, W0+1, 2 W0, 4 W0 - 1}:
                 for real banks)
   support_zero / support_start   zero-phase supports contain sample 0; causal gammatone
                 supports start at sample 0
+
+Besides the C05 design lattice the bank lattice contains boundary banks: odd sampling rates with
+the default and the floor(rate/2) top edge, and triangular / Fbank banks with the top edge on every
+boundary the constructors know (floor(rate/2), rate/2, rate/2 + 0.5, rate/2 + 1).
+
+Every (bank, filter, width) case is evaluated on a bank object of its own (impulse response, then
+frequency response), exactly as its replay does.  `history` explores call histories on ONE
+object (engine in c05.py): every sequence of 2 / 3 calls over {get_impulse_response,
+get_frequency_response} x {first, last filter} x the in-domain widths {W0, W0+1, 2 W0}.
 """
 import math
 
@@ -27,17 +36,31 @@ ASSUMPTIONS = [
     "W0 = max(right - left + 1, ceil(2 rate / (high - low))) from the bank's own supports / supports_hz: "
     "the property's precondition is phrased in terms of them; filters with W0 above the tier's cap are "
     "counted and not enumerated",
-    "bank lattice = C05's restricted to the property's domain (gammatone orders {3,4,6}, "
-    "scale_l2_norm=False); a valid configuration whose constructor raises is counted as unconstructible",
+    "bank lattice = C05's design lattice restricted to the property's domain (gammatone orders {3,4,6}, "
+    "scale_l2_norm=False) plus boundary banks (odd / fractional rates {1001.5, 11025}; triangular / Fbank at rates {1000, "
+    "1001, 2000.5, 8000} with the top edge at floor(rate/2), rate/2, rate/2 + 0.5, rate/2 + 1); a configuration "
+    "whose constructor raises is counted as unconstructible",
+    "every case runs on a bank object of its own (enumeration: a copy of a constructed object that "
+    "was never used, mutable attributes deep-copied; replay: a newly constructed object - assumed equivalent); the history sub-check's differential oracle is a fresh "
+    "object of the same class in the same process (see C05): state shared between objects is not explored",
     "no signal data is involved: pass/fail cannot depend on VERIF_SEED",
 ]
 
 W0_CAP = {"quick": 1000, "thorough": 3000}
 ORDERS = (3, 4, 6)
+ODD_RATES = (1001.5, 11025)
+HISTORY_W0_CAP = 1100
+
+
+def odd_rate_ranges(kind, rate):
+    return [(low, high) for low in (0.0, 20.0) for high in (None, c05.floor_nyquist(rate))]
 
 
 def lattice(tier):
+    nfs = (1, 3, 11) if tier == "thorough" else (1, 3)
     banks = c05.tier_lattice(tier, orders=ORDERS)
+    banks += c05.bank_lattice(("gabor", "gammatone"), nfs, ODD_RATES, orders=ORDERS, ranges_fn=odd_rate_ranges)
+    banks += c05.edge_lattice(("tri", "fbank"), nfs=nfs)
     return [b for b in banks if not (b["name"] == "gammatone" and b.get("scale_l2_norm"))]
 
 
@@ -122,26 +145,43 @@ def _support_position(bank, b, i):
     return []
 
 
+def _case(b, i, w, e, pristine=None):
+    """one case on a bank object of its own -> list of findings, notes; None = unconstructible"""
+    if pristine is not None:
+        bank = pristine.fresh()
+    else:
+        r = c05.build(b)
+        if r[0] != "ok":
+            return None
+        bank = r[1]
+    if w is None:
+        return _support_position(bank, b, i), set()
+    return _eval_fw(bank, b, i, w, e)
+
+
 @c05.quiet
 def _bank(b, cap):
     r = c05.build(b)
     if r[0] != "ok":
         return c05.unconstructible(r)
-    bank = r[1]
+    bank = r[1]  # only read for num_filts and the base widths; every case gets an object of its own
+    pristine = c05.Pristine(b)  # never touched, only copied
     tags = c05.bank_tags(b)
     e = c05.eps()
     viol, seen, notes = [], set(), set()
     evals = nontriv = 0
 
-    def add(got, case):
+    def run(i, w):
+        got, nt = _case(b, i, w, e, pristine)
         for what, extra, detail in got:
             key = (what,) + tuple(sorted(extra.items()))
             if key not in seen:
-                viol.append(core.violation(dict(tags, what=what, **extra), detail, case))
+                viol.append(core.violation(dict(tags, what=what, **extra), detail, dict(bank=b, filt=i, width=w)))
             seen.add(key)
+        return nt
 
     for i in range(bank.num_filts):
-        add(_support_position(bank, b, i), dict(bank=b, filt=i, width=None))
+        run(i, None)
         w0 = base_width(bank, i)
         if w0 is None:
             notes.add("no_finite_supports")
@@ -153,11 +193,10 @@ def _bank(b, cap):
             continue
         for w in widths_of(w0):
             evals += 1
-            got, nt = _eval_fw(bank, b, i, w, e)
+            nt = run(i, w)
             notes |= nt
             if "time_outside" in nt or "freq_outside" in nt:
                 nontriv += 1
-            add(got, dict(bank=b, filt=i, width=w))
     return core.result(viol, evals=evals, nontrivial_count=nontriv,
                        obs=(b["name"], sorted(notes), sorted(map(str, seen))),
                        sample=dict(bank=b, filters=bank.num_filts))
@@ -166,16 +205,25 @@ def _bank(b, cap):
 @c05.quiet
 def _replay(case):
     b = case["bank"]
-    r = c05.build(b)
-    if r[0] != "ok":
-        return c05.unconstructible(r)
-    bank = r[1]
-    if case.get("width") is None:
-        got = _support_position(bank, b, case["filt"])
-    else:
-        got, _ = _eval_fw(bank, b, case["filt"], case["width"], c05.eps())
+    res = _case(b, case["filt"], case.get("width"), c05.eps())
+    if res is None:
+        return c05.unconstructible(c05.build(b))
     return core.result([core.violation(dict(c05.bank_tags(b), what=what, **extra), detail, case)
-                        for what, extra, detail in got])
+                        for what, extra, detail in res[0]])
+
+
+def _alphabet(b, bank):
+    """{impulse, frequency} x {first, last filter} x the in-domain widths {W0, W0+1, 2 W0} of that filter"""
+    def widths(i):
+        w0 = base_width(bank, i)
+        if w0 is None or w0 > HISTORY_W0_CAP:
+            return []
+        return [w0, w0 + 1, 2 * w0]
+    return c05.history_alphabet(b, ("imp", "freq"), widths)
+
+
+def history_banks(tier):
+    return c05.history_banks(tier, orders=(3, 4), l2s=(False,), rates=(1000, 8000))
 
 
 def subchecks(tier, seed):
@@ -186,15 +234,39 @@ def subchecks(tier, seed):
         pts = [b for b in banks if b["name"] == kind]
         subs.append(core.SubCheck(
             "supports_" + kind, pts, lambda b: _bank(b, cap),
-            "%s banks of the C05 lattice%s x every filter x buffer widths {W0, W0+1, 2W0, 4W0-1}, W0 = "
+            "%s banks of the C05 design lattice and the boundary banks (odd rates; top edge at floor(rate/2), rate/2, "
+            "rate/2 + 0.5, rate/2 + 1 where the class accepts it)%s x every filter x buffer widths {W0, W0+1, 2W0, "
+            "4W0-1}, each case on a bank object of its own, W0 = "
             "max(temporal support, ceil(2 rate / bandwidth)) <= %d: ifft(frequency response) vs impulse "
             "response (2 eps), real dtype iff is_real, |impulse| < 2 eps outside supports, |response| < 2.5 eps "
             "outside supports_hz, position of the supports. non-trivial = at least one buffer sample or DFT "
             "bin lies outside the advertised support; filters with W0 above the cap are counted, not "
             "enumerated" % (c05.CLASSNAME[kind],
                             " (orders 3,4,6, scale_l2_norm=False)" if kind == "gammatone" else "", cap),
-            axes=dict(num_filts=sorted(set(b["num_filts"] for b in pts)), rate=[1000, 8000, 16000],
+            axes=dict(num_filts=sorted(set(b["num_filts"] for b in pts)),
+                      rate=sorted(set(b["sampling_rate"] for b in pts)),
                       scale=list(c05.SCALES), width="W0, W0+1, 2W0, 4W0-1", w0_cap=cap,
+                      low_high="design lattice (see C05); Gabor / gammatone at odd rates %r: low {0, 20} x high "
+                               "{None, floor(rate/2)}; triangular / Fbank at rates %r: low {0, 20} x high {None, "
+                               "floor(rate/2), rate/2, rate/2 + 0.5, rate/2 + 1}" % (ODD_RATES, c05.EDGE_RATES),
                       flags="every combination inside the property's domain"),
             replay=_replay, chunk=4))
+    hist_banks = history_banks(tier)
+    hist_alpha = 2 * 2 * 3
+    depth = 3 if tier == "thorough" else 2
+    subs.append(core.SubCheck(
+        "history", c05.history_points(tier, hist_banks, hist_alpha), lambda pt: c05.history_point(pt, _alphabet),
+        "call histories on ONE bank object: the banks of the property's domain (4 classes x every flag "
+        "combination, gammatone orders 3, 4 without L2 scaling) x num_filts x rates (mel, low 0, default high) x "
+        "every sequence of %d calls over {get_impulse_response, get_frequency_response} x {first, last filter} x "
+        "the in-domain widths {W0, W0+1, 2 W0} of that filter (W0 <= %d). Every result is held to the end of "
+        "the sequence; then (1) its copy taken on return agrees (1e-12) with a fresh object's result for that "
+        "call, (2) the held array is bit-identical to that copy, (3) no two held arrays share memory, (4) after "
+        "the caller overwrites the held arrays with NaN the same calls still agree with a fresh object, (5) "
+        "supports are unchanged. evaluations = sequences; non-trivial = two different calls of the sequence "
+        "return arrays of equal shape" % (depth, HISTORY_W0_CAP),
+        axes=dict(bank=sorted(c05.CLASSNAME), num_filts=sorted(set(b["num_filts"] for b in hist_banks)),
+                  rate=sorted(set(b["sampling_rate"] for b in hist_banks)), width="W0, W0+1, 2 W0",
+                  depth=depth, alphabet=hist_alpha),
+        replay=c05.history_replay, chunk=1, kind="histories"))
     return subs
